@@ -238,7 +238,9 @@ fn probe<T: Elem>(t: &TooDee<T>, out: &mut Vec<u64>) {
     // AsRef<[T]> / AsRef<Vec<T>> are the same buffer
     let (a1, a2): (&[T], &Vec<T>) = (t.as_ref(), t.as_ref());
     let same_buf = a1.as_ptr() == d.as_ptr() && a1.len() == d.len() && a2.as_ptr() == d.as_ptr() && a2.len() == d.len();
-    out.push(if same_buf { d.len() as u64 } else { u64::MAX });
+    // is_empty() / size() (trait defaults) agree with the dimensions and the buffer
+    let consistent = same_buf && TooDeeOps::is_empty(t) == d.is_empty() && t.size() == (t.num_cols(), t.num_rows());
+    out.push(if consistent { d.len() as u64 } else { u64::MAX });
     out.extend(d.iter().map(|x| x.val() as u64));
     let drops = ledger_take_step_drops();
     if T::TRACK {
